@@ -912,3 +912,61 @@ Section NoDupLevel.
       destruct (Inner _ _ _ _ Hk H1) as (_ & _ & E1). destruct (Inner _ _ _ _ Hk' H2) as (_ & _ & E2). congruence.
   Qed.
 End NoDupLevel.
+
+(* ---------- boolean checks are sound ---------- *)
+Lemma ol_nodupb_sound : forall l, nodupb l = true -> NoDup l.
+Proof.
+  induction l as [|x r IH]; simpl; intro H; [constructor|].
+  apply andb_true_iff in H. destruct H as [H1 H2]. constructor; [|apply IH; exact H2].
+  intro HI. apply ol_existsb_In in HI. rewrite HI in H1. discriminate.
+Qed.
+
+Lemma ol_nodupN_sound : forall l, nodupN l = true -> NoDup l.
+Proof.
+  induction l as [|x r IH]; simpl; intro H; [constructor|].
+  apply andb_true_iff in H. destruct H as [H1 H2]. constructor; [|apply IH; exact H2].
+  intro HI. assert (E : existsb (N.eqb x) r = true) by (apply existsb_exists; exists x; split; [exact HI | apply N.eqb_refl]).
+  rewrite E in H1. discriminate.
+Qed.
+
+Lemma ol_wf_ttabb_sound : forall T, wf_ttabb T = true -> wf_ttab T.
+Proof.
+  intros T H. unfold wf_ttabb in H. repeat (apply andb_true_iff in H; destruct H as [H ?]).
+  apply Nat.leb_le in H. apply Nat.eqb_eq in H3, H2. apply ol_nodupb_sound in H1.
+  split; [exact H|]. split; [exact H3|]. split; [exact H2|]. split; [exact H1|].
+  intros e He. rewrite forallb_forall in H0. specialize (H0 e He). apply andb_true_iff in H0. destruct H0 as [A B].
+  apply Nat.eqb_eq in A. apply ol_nodupN_sound in B. split; assumption.
+Qed.
+
+Lemma ol_levels_leb_sound : forall m T, levels_leb m T = true -> levels_le m T.
+Proof.
+  intros m T H. unfold levels_leb in H. apply andb_true_iff in H. destruct H as [H1 H2].
+  rewrite forallb_forall in H1, H2. split.
+  - intros e He. specialize (H1 e He). apply andb_true_iff in H1. destruct H1 as [H1 H3].
+    apply andb_true_iff in H1. destruct H1 as [H1 H4]. apply Nat.leb_le in H1, H4. split; [exact H1|]. split; [exact H4|].
+    intros c l Hcl. rewrite forallb_forall in H3. specialize (H3 (c, l) Hcl). apply Nat.leb_le in H3. exact H3.
+  - intros l Hl. apply Nat.leb_le. apply H2. exact Hl.
+Qed.
+
+(* ---------- a small table on which the hypotheses hold and the levels are not all equal ---------- *)
+(* n-gram 2, 'a' -> 'b' -> 'a', IP 'a' at level 0, IP 'b' at level 10, length levels [10; 1; 10; 0] *)
+Definition T_r9 : ttab :=
+  mk_ttab 2 2 4
+    [mk_tentry [97%N] 0 0 [(98%N, 0)]; mk_tentry [98%N] 10 0 [(97%N, 0)]]
+    [10; 1; 10; 0].
+
+Lemma T_r9_wf : wf_ttab T_r9 /\ levels_le guesser_max_level T_r9.
+Proof.
+  split; [apply ol_wf_ttabb_sound; vm_compute; reflexivity | apply ol_levels_leb_sound; vm_compute; reflexivity].
+Qed.
+
+Example ol_three_way_example :
+  wf_ttab T_r9 /\ levels_le guesser_max_level T_r9 /\
+  trainer_level T_r9 [97%N; 98%N] = Some 1 /\
+  scorer_level (load_s (write T_r9)) [97%N; 98%N] = Some 1 /\
+  load_g (write T_r9) = Some (gview T_r9) /\
+  level_strings (gview T_r9) 1 = [[97%N; 98%N]] /\
+  trainer_level T_r9 [98%N; 97%N; 98%N; 97%N] = Some 10 /\
+  trainer_level T_r9 [97%N] = None /\ trainer_level T_r9 [97%N; 97%N] = None /\
+  trainer_level T_r9 [97%N; 98%N; 97%N; 98%N; 97%N] = None.
+Proof. split; [apply T_r9_wf|]. split; [apply T_r9_wf|]. repeat split; vm_compute; reflexivity. Qed.
